@@ -496,7 +496,7 @@ class RegexParser:
         # Control character
         if ch == "c":
             ctrl = self._peek()
-            if ctrl is not None and (ctrl.isalpha()):
+            if ctrl is not None and ctrl.isascii() and ctrl.isalpha():
                 self._advance()
                 return Char(chr(ord(ctrl.upper()) - 64))
             # Non-letter after \c: treat as literal \c (backslash + c)
